@@ -153,8 +153,12 @@ class Presentation:
         self.e0 = epoch_of(2013, 3, 1) if e0 is None else e0
         self.s_real, self.j_real = s_real, j_real
         self.gap, self.gap_rain, self.base, self.zone, self.gap_jump = gap, gap_rain, base, zone, gap_jump
-        self.rain_scale = s_real / S
-        self.inc_scale = j_real * (dt / 3600.0) / J
+        # a threshold of exactly 0 ("any rain is a storm" / "any increase is a rise") is presented as S = 0 / J = 0:
+        # the unit is then a fixed binary fraction instead of threshold / S
+        if (S == 0) != (s_real == 0) or (J == 0) != (j_real == 0):
+            raise ValueError("a zero threshold must be zero in both the lattice and the real units")
+        self.rain_scale = s_real / S if S else 0.25
+        self.inc_scale = j_real * (dt / 3600.0) / J if J else 0.25
 
     def et_of(self, i):
         """evapotranspiration (mm/h) on the step starting at absolute sample index i"""
